@@ -28,10 +28,10 @@ pub fn run<H: Hasher>(name: &'static str, recs: &[Value], _unused: usize) -> Rep
                 singles::<H>(ri, name, rec, &mut t, &mut rep);
                 trees.insert(t.ctx.n, t);
             },
-            Some("batch") => {
+            Some(kind @ ("batch" | "shape")) => {
                 let n = rec["n"].as_u64().unwrap_or(0) as usize;
                 match trees.get_mut(&n) {
-                    Some(t) => batch::<H>(ri, name, rec, t, &mut rep),
+                    Some(t) => batch::<H>(ri, name, rec, t, &mut rep, kind == "batch"),
                     None => rep.count("skipped_no_tree", 1),
                 }
             },
@@ -83,20 +83,22 @@ fn singles<H: Hasher>(ri: usize, name: &str, rec: &Value, t: &mut Tree<H>, rep: 
     }
 }
 
-fn batch<H: Hasher>(ri: usize, name: &str, rec: &Value, t: &mut Tree<H>, rep: &mut Report) {
+fn batch<H: Hasher>(ri: usize, name: &str, rec: &Value, t: &mut Tree<H>, rep: &mut Report, honest_base: bool) {
     let idx0 = indexes_of(&rec["idx"]);
     let lv0 = t.ctx.eval_seq(&rec["leaves"]).expect("leaf terms");
     let nodes0 = t.ctx.eval_seq2(&rec["nodes"]).expect("node terms");
     let depth0 = rec["depth"].as_u64().unwrap() as u8;
     let root = t.root;
-    rep.count("batches", 1);
+    rep.count(if honest_base { "batches" } else { "shapes" }, 1);
     // the honest proof described by the specification must be acceptable to the real verifier,
     // otherwise the mutations derived from it say nothing (counted; the driver treats it as a tool error)
     let base = BatchMerkleProof::<H> { nodes: nodes0.clone(), depth: depth0 };
-    rep.count("calls", 1);
-    if !matches!(catch(|| MerkleTree::<H>::verify_batch(&root, &idx0, &lv0, &base)), Ok(Ok(()))) {
-        rep.count("base_rejected", 1);
-        return;
+    if honest_base {
+        rep.count("calls", 1);
+        if !matches!(catch(|| MerkleTree::<H>::verify_batch(&root, &idx0, &lv0, &base)), Ok(Ok(()))) {
+            rep.count("base_rejected", 1);
+            return;
+        }
     }
     for m in rec["muts"].as_array().cloned().unwrap_or_default() {
         let idx = m.get("idx").map(indexes_of).unwrap_or_else(|| idx0.clone());
